@@ -11,6 +11,8 @@ import E2P.Spec.CompareSpec
 import E2P.Model.DateFns
 import E2P.Spec.DateSpec
 import E2P.Model.Round
+import E2P.Model.Lookup
+import E2P.Spec.LookupSpec
 open E2P
 
 def optB : Option Bool → String
@@ -105,6 +107,73 @@ def handlePct (args : List String) : String :=
   | some [.int z] => s!"{encRes (percentFn (.int z))} | {optV (some (.flt (specPercent (z : Rat))))} | "
   | _ => "bad-op"
 
+def optIdx : Option Nat → String
+  | some i => s!"I{i}" | none => " ".intercalate (encVal errNA)
+
+/-- lookups: `lk <fn> args…` -/
+def handleLookup (args : List String) : String :=
+  match args with
+  | fn :: rest =>
+    match decAll rest with
+    | none => "bad-op"
+    | some vs =>
+      match fn, vs with
+      | "match", [lookup, .list rows, .int mt] =>
+        let spec := match keysOf rows with
+          | some keys =>
+            if allEligible lookup keys && textsModelled (lookup :: keys) then
+              if mt = 0 then optIdx (specFirstEqual true lookup keys)
+              else if mt = 1 ∧ sortedAsc true keys then optIdx (specLastLe true lookup keys)
+              else "-"
+            else "-"
+          | none => "-"
+        s!"{encRes (matchFn lookup (.list rows) mt)} | {spec} | "
+      | "xmatch", [lookup, .list rows, .int mm, .int sm] =>
+        let spec := match keysOf rows with
+          | some keys =>
+            if allEligible lookup keys && textsModelled (lookup :: keys) && mm == 0 then
+              if sm = 1 then optIdx (specFirstEqual true lookup keys)
+              else if sm = -1 then optIdx (specLastEqual true lookup keys)
+              else "-"
+            else "-"
+          | none => "-"
+        s!"{encRes (xmatchFn lookup (.list rows) mm sm)} | {spec} | "
+      | "vlookup", [lookup, .list rows, .int col, rl] =>
+        let spec := match keysOf rows with
+          | some keys =>
+            if allEligible lookup keys && textsModelled (lookup :: keys) && 1 ≤ col then
+              let pick : Option Nat → String := fun i => match i with
+                | some i => (match rows[i - 1]? with
+                    | some row => (match rowCol row col with | .ok v => optV (some v) | .error _ => "-")
+                    | none => "-")
+                | none => optV (some errNA)
+              match rl with
+              | .bool false | .int 0 => pick (specFirstEqual false lookup keys)
+              | .bool true | .int 1 => if sortedAsc false keys then pick (specLastLe false lookup keys) else "-"
+              | _ => "-"
+            else "-"
+          | none => "-"
+        s!"{encRes (vlookupFn lookup (.list rows) col rl)} | {spec} | "
+      | "index", [.list rows, r, c] =>
+        let rs : Option (List (List Val)) := rows.mapM fun x => match x with | .list cs => some cs | _ => none
+        let spec := match rs, r, c with
+          | some rs, .int r, .int c => if rs.length > 1 || true then optV (specIndex rs r c) else "-"
+          | some rs, .int r, .none =>
+            -- one index: row number of a column vector, column number of a row vector
+            if rs.length = 1 then optV (specIndex rs 1 r)
+            else if rs.all (fun x => x.length == 1) then optV (specIndex rs r 1) else "-"
+          | _, _, _ => "-"
+        s!"{encRes (indexFn (.list rows) r c)} | {spec} | "
+      | "address", [.int r, .int c] =>
+        let letters := colLetters c.toNat
+        let ok := 1 ≤ c && colIndex letters == c.toNat && letters.all isUpper
+        let spec := if ok then optV (some (.str (['$'] ++ letters ++ ['$'] ++ (toString r).toList))) else "-"
+        s!"{encRes (addressFn r c)} | {spec} | "
+      | "col", [.int c] => s!"{encRes (.ok (.str (colLetters c.toNat)))} | - | "
+      | "colidx", [.str s] => s!"{encRes (.ok (.int (colIndex s)))} | - | "
+      | _, _ => "bad-op"
+  | _ => "bad-op"
+
 def handle (line : String) : String :=
   match tokens line with
   | "echo" :: rest =>
@@ -114,6 +183,7 @@ def handle (line : String) : String :=
   | "cmp" :: rest => handleCmp rest
   | "dt" :: rest => handleDate rest
   | "rnd" :: rest => handleRound rest
+  | "lk" :: rest => handleLookup rest
   | "pct" :: rest => handlePct rest
   | _ => "bad-op"
 
